@@ -85,7 +85,11 @@ def modelledSites : List (String × String × Bool) := [
   ("parser.BasicParser", "InvalidURLUnit", false),
   ("parser.BasicParser", "InvalidURLUnit", false)]
 
-theorem C15_sites_classified : Generated.errorSites.map (fun s => (s.1, s.2.1, s.2.2.1)) = modelledSites := by decide
+/-- the sites of the Go source, as (error type, failure flag), are — counted with multiplicity — exactly the sites the model
+    replays. Stated as a permutation: moving a site to another function (helper extraction), or reordering functions,
+    changes nothing; a flipped flag, a new or a removed site does. -/
+theorem C15_sites_classified :
+    (Generated.errorSites.map (fun s => (s.2.1, s.2.2.1))).isPerm (modelledSites.map (fun s => (s.2.1, s.2.2))) = true := by decide +kernel
 
 /-- `handleError` with `failure = true` always hands the error back, whatever the configuration -/
 theorem C15_fatal_always_stops (cfg : Cfg) : stops cfg true = true := by simp [stops]
